@@ -1,6 +1,7 @@
 """C01 - JWS verification returns only authentically signed content (E1, fault enumeration)."""
 import copy
 import json
+import re
 
 from .. import config, scen
 from .. import alphabet as A
@@ -395,7 +396,7 @@ def apply_fault(ctx, tok, kind, fault, alg, path, placement, stride=1, tag=""):
         json_path = path in JSON_PATHS
         opts = []
         if path in GENERAL:
-            opts += ["empty-signatures", "tamper-first-of-two", "tamper-second-of-two", "drop-valid-keep-tampered",
+            opts += ["empty-signatures", "tamper-first-of-two", "tamper-second-of-two", "drop-valid-keep-tampered", "second-entry-signed-by-the-first-signer", "first-entry-signed-by-the-second-signer",
                      "append-forged-entry-with-copied-signature", "prepend-forged-entry-with-copied-signature", "append-entry-alg-none-with-copied-signature"]
         if path in ("flattened", "7797-flattened"):
             opts += ["add-empty-signatures-member"]
@@ -416,6 +417,12 @@ def apply_fault(ctx, tok, kind, fault, alg, path, placement, stride=1, tag=""):
             tok.members[0]["sig"] = flip(tok.members[0]["sig"], 9)
         elif edit == "tamper-second-of-two":
             tok.members[1]["sig"] = flip(tok.members[1]["sig"], 9)
+        elif edit in ("second-entry-signed-by-the-first-signer", "first-entry-signed-by-the-second-signer"):
+            # one signer writes the other's entry too: the header (and kid) of the victim, the signature made with the forger's own key
+            v = 1 if edit.startswith("second") else 0
+            mv = tok.members[v]
+            seg_v = b64.enc(mv["protected"]) if mv["protected"] is not None else ""
+            mv["sig"] = jws_sign(alg, scen.key(kind, 2 * (1 - v)), rjws.signing_input(seg_v, tok.payload, tok.b64mode))
         elif edit == "drop-valid-keep-tampered":
             tok.members = [tok.members[1]]
             tok.members[0]["sig"] = flip(tok.members[0]["sig"], 3)
@@ -517,6 +524,12 @@ def apply_fault(ctx, tok, kind, fault, alg, path, placement, stride=1, tag=""):
     raise ValueError(fault)
 
 
+def present_again(desc):
+    """Every fault but the bulk of the single-bit flips (there: the first bit of every octet) is presented twice."""
+    m = re.match(r"bit (\d+) of", desc)
+    return m is None or int(m.group(1)) % 8 == 0
+
+
 def h_faults(ctx):
     alg, kind = ctx.choose("alg/key", scen.JWS_KINDS)
     path = ctx.choose("path", PATHS)
@@ -548,6 +561,10 @@ def h_faults(ctx):
     if fault != "none" and wire == base.wire() and key_override is None and tok.caller_payload is None:
         return Outcome("fault-is-identity", [], nontrivial=None)
     key = key_override if key_override is not None else verify_key(kind, path)
+    if path in GENERAL and key_override is None and ctx.choose("verifier_holds", ["a key set", "a callable that returns the key of each signature"]) != "a key set":
+        by_kid = {k.kid: k for k in key.keys}
+        key = lambda obj: by_kid[obj.headers()["kid"]]  # noqa: E731
+        desc += " [keys through a per-signature callable]"
     if fault == "none" and path not in GENERAL and ctx.choose("verifier_holds", ["a key", "a one-key set"]) == "a one-key set":
         from joserfc.jwk import KeySet
         key = KeySet([key])       # a token without kid against a set of one: verified, and returned as it was signed
@@ -562,6 +579,11 @@ def h_faults(ctx):
         ref_payload = ref_verdict(wire, kind, path, caller_payload)
     for name, ep in entry_points(path, payload_is_json=(path == "compact")):
         r = call(ep, copy.deepcopy(wire), key, [alg, "none"] if "none-alg" in desc else [alg], caller_payload)
+        if fault != "none" and not r.ok and present_again(desc):
+            # a refused token that is presented again - same octets, same key object, same arguments - is refused again
+            r = call(ep, copy.deepcopy(wire), key, [alg, "none"] if "none-alg" in desc else [alg], caller_payload)
+            if r.ok:
+                desc += "; refused at first, presented a second time"
         if fault == "none":
             if not r.ok and not must_accept(name, path):
                 buckets.append("valid-refused:form-not-implemented")
